@@ -50,8 +50,14 @@ type Case struct {
 	IncludeCtx      bool    `json:"include_context_errors"`
 	Collector       string  `json:"collector"` // default | erc | pair
 	Faults          []Fault `json:"faults"`
-	Yields          []int   `json:"yields"`
-	Procs           int     `json:"gomaxprocs"`
+	// OptionForm says how the configuration reaches the call: "options"
+	// (one provider per setting, all exclusions in one AddExcludeErrors),
+	// "split" (one AddExcludeErrors per excluded error), "set" (a
+	// prepared WorkerGroupConf through WorkerGroupConfSet carrying the
+	// first exclusion, the rest added afterwards)
+	OptionForm string `json:"option_form,omitempty"`
+	Yields     []int  `json:"yields"`
+	Procs      int    `json:"gomaxprocs"`
 }
 
 func goid() int {
@@ -210,7 +216,19 @@ func runCase(c *Case) (string, string, *run) {
 			excluded = append(excluded, r.bases[f.Pos])
 		}
 	}
-	if len(excluded) > 0 {
+	switch {
+	case len(excluded) == 0:
+	case c.OptionForm == "split":
+		for _, e := range excluded {
+			opts = append(opts, fun.WorkerGroupConfAddExcludeErrors(e))
+		}
+	case c.OptionForm == "set":
+		base := &fun.WorkerGroupConf{NumWorkers: c.Workers, ContinueOnError: c.ContinueOnError, ContinueOnPanic: c.ContinueOnPanic, IncludeContextExpirationErrors: c.IncludeCtx, ExcludedErrors: []error{excluded[0]}}
+		opts = []fun.OptionProvider[*fun.WorkerGroupConf]{fun.WorkerGroupConfSet(base)}
+		if len(excluded) > 1 {
+			opts = append(opts, fun.WorkerGroupConfAddExcludeErrors(excluded[1:]...))
+		}
+	default:
 		opts = append(opts, fun.WorkerGroupConfAddExcludeErrors(excluded...))
 	}
 	// with a custom collector Map / Generate report there rather than
@@ -447,6 +465,7 @@ func genCase(t *rapid.T) *Case {
 		Collector:       rapid.SampledFrom([]string{"default", "default", "erc", "pair"}).Draw(t, "collector"),
 		Yields:          rapid.SliceOfN(rapid.IntRange(0, 3), 1, 5).Draw(t, "yields"),
 		Procs:           rapid.SampledFrom([]int{1, 2, 4, 16}).Draw(t, "gomaxprocs"),
+		OptionForm:      rapid.SampledFrom([]string{"options", "options", "split", "set"}).Draw(t, "optionForm"),
 	}
 	nf := rapid.IntRange(0, 3).Draw(t, "faults")
 	used := map[int]bool{}
@@ -466,7 +485,7 @@ func genCase(t *rapid.T) *Case {
 		used[pos] = true
 		f := Fault{Pos: pos, Kind: rapid.SampledFrom(faultKinds).Draw(t, "kind")}
 		if f.Kind == "error" || f.Kind == "wrapped" {
-			f.Excluded = rapid.IntRange(0, 3).Draw(t, "excluded") == 0
+			f.Excluded = rapid.IntRange(0, 2).Draw(t, "excluded") == 0
 		}
 		c.Faults = append(c.Faults, f)
 	}
@@ -511,7 +530,7 @@ func TestErrorContract(t *testing.T) {
 			}
 			fired = fired || len(r.executed) > 0
 		}
-		cls := []string{"construct:" + c.Construct, fmt.Sprintf("continueOnError:%v", c.ContinueOnError), fmt.Sprintf("continueOnPanic:%v", c.ContinueOnPanic), "collector:" + c.Collector}
+		cls := []string{"options:" + c.OptionForm, "construct:" + c.Construct, fmt.Sprintf("continueOnError:%v", c.ContinueOnError), fmt.Sprintf("continueOnPanic:%v", c.ContinueOnPanic), "collector:" + c.Collector}
 		for _, f := range c.Faults {
 			cls = append(cls, "fault:"+f.Kind)
 			if f.Slow {
